@@ -106,9 +106,17 @@ def run(prog: Program, chk: Check):
     for e in vg.pred[vg.exit.id]:
         exits_facts += vgs.after_edge(e)
     lim = None
+    vcm = guards.copy_map(vm.node)  # `size = mdf.size; if size > LIMIT:` counts
+    size_reads = []
     for n in walk_local(vm.node):
-        if isinstance(n, ast.Compare) and norm(n.left) == f"{vp}.size" and isinstance(n.ops[0], ast.Gt) and isinstance(n.comparators[0], ast.Constant):
-            lim = n.comparators[0].value
+        if isinstance(n, ast.Compare) and norm(guards.subst(n.left, vcm)) == f"{vp}.size" and isinstance(n.ops[0], ast.Gt) and isinstance(guards.subst(n.comparators[0], vcm), ast.Constant):
+            lim = guards.subst(n.comparators[0], vcm).value
+            # where the size is actually read: the local's definition, or the comparison itself
+            if isinstance(n.left, ast.Name) and n.left.id in vcm:
+                size_reads += [x for x in vg.nodes if x.kind == "stmt" and isinstance(x.ast, ast.Assign) and len(x.ast.targets) == 1 and norm(x.ast.targets[0]) == n.left.id]
+            else:
+                size_reads += [x for x in vg.nodes if x.kind == "test" and any(y is n for y in ast.walk(x.ast))]
+    exits_facts = [[(guards.subst(e_, vcm), pol_) for e_, pol_ in p_] for p_ in exits_facts]
     core_max = prog.module_constants("pyrtma.core_defs").get("MAX_MESSAGE_SIZE")
     S.decide(lim == 65535 and core_max == lim, fkey(vm, "limit-literal"), where(vm), "limit literal is 65535 == core_defs.MAX_MESSAGE_SIZE",
              f"size limit literal is {lim}, core_defs.MAX_MESSAGE_SIZE is {core_max}")
@@ -122,8 +130,8 @@ def run(prog: Program, chk: Check):
     S.decide(okc, fkey(vm, "alignment-iff-validate_alignment"), where(vm), "check_alignment(mdf) runs exactly when self.validate_alignment",
              "check_alignment is not called exactly under self.validate_alignment")
     # size check happens after padding (so inserted padding counts)
-    szt = [n for n in vg.nodes if n.kind == "test" and f"{vp}.size" in norm(n.ast)]
-    S.decide(bool(szt) and bool(cal) and cal[0].id not in flow.reach(vg, [szt[0].id]), fkey(vm, "size-after-alignment"), where(vm), "size is checked after padding was inserted",
+    szt = size_reads or [n for n in vg.nodes if n.kind == "test" and f"{vp}.size" in norm(n.ast)]
+    S.decide(bool(szt) and bool(cal) and all(cal[0].id not in flow.reach(vg, [z.id]) for z in szt), fkey(vm, "size-after-alignment"), where(vm), "size is read and checked after padding was inserted",
              "size limit is checked before check_alignment may add padding")
     af = prog.func(PAR, "Parser.add_fields")
     ag = C.build(af.node)
